@@ -326,20 +326,36 @@ func checkRestrictedJoinSelection(c *fw.Ctx) {
 		c.Undecided(rule, "restricted-join authoriser selection", "path conditions too large")
 		return
 	}
+	needs := []need{
+		nd("the local server is in the allowed room", true, ".LocalServerInRoom"),
+		nd("the joining user is in the allowed room", true, ".UserJoinedToRoom"),
+		nd("the chosen event is a member event with a state key", false, ".StateKey(", " == nil)"),
+		{"the chosen user is a creator or may invite", []lit{{[]string{"slices.Contains(", "creators"}, true}, {[]string{".UserLevel(", " < ", ".Invite)"}, false}, {[]string{".UserLevel(", " >= ", ".Invite)"}, true}, {[]string{"slices.Contains(phi("}, true}}},
+	}
+	known := func(atom string) bool {
+		if !fw.AtomCallsUnexportedHelper(atom) {
+			return true
+		}
+		for _, nn := range needs {
+			for _, l := range nn.alts {
+				if containsAll(atom, l.subs...) {
+					return true
+				}
+			}
+		}
+		return false
+	}
 	for _, r := range fw.Returns(fn) {
 		s := fw.Sig(r.Results[0])
 		if s == `""` {
 			continue
 		}
 		n++
-		for _, nn := range []need{
-			nd("the local server is in the allowed room", true, ".LocalServerInRoom"),
-			nd("the joining user is in the allowed room", true, ".UserJoinedToRoom"),
-			nd("the chosen event is a member event with a state key", false, ".StateKey(", " == nil)"),
-			{"the chosen user is a creator or may invite", []lit{{[]string{"slices.Contains(", "creators"}, true}, {[]string{".UserLevel(", " < ", ".Invite)"}, false}, {[]string{"slices.Contains(phi("}, true}}},
-		} {
+		// the selection loop may live in an unexported helper: its conditions are part of the path
+		cond := fw.ExpandDNF(pc[r.Block()], known)
+		for _, nn := range needs {
 			bad := false
-			for _, term := range pc[r.Block()] {
+			for _, term := range cond {
 				ok := false
 				for _, l := range nn.alts {
 					if termHas(term, l) {
@@ -352,9 +368,25 @@ func checkRestrictedJoinSelection(c *fw.Ctx) {
 			}
 			c.Check(!bad, rule, "restricted join: an authorising user is returned only if "+nn.what, c.P.Pos(fw.InstrPos(r)), "", "a user id is returned on a path that does not establish it")
 		}
-		c.Check(strings.Contains(s, ".StateKey(") && strings.Contains(s, "JoinedUsers"), rule, "restricted join: the authorising user is a joined member of the allowed room", c.P.Pos(fw.InstrPos(r)), s, "returned id is "+s)
+		// the returned id is the state key of one of the allowed room's joined members
+		okVal := fw.DerivesFrom(r.Results[0], fw.FlowSpec{All: true, IsSourceIn: func(v ssa.Value, fr *fw.Frame) bool {
+			u, isU := v.(*ssa.UnOp)
+			if !isU {
+				return false
+			}
+			call, _ := fw.CallOf(u.X)
+			if call == nil || !strings.HasSuffix(fw.CalleeName(call), ".StateKey") {
+				return false
+			}
+			recv := call.Common().Value
+			if !call.Common().IsInvoke() && len(call.Common().Args) > 0 {
+				recv = call.Common().Args[0]
+			}
+			return strings.Contains(fw.SigIn(fr, recv), ".JoinedUsers")
+		}})
+		c.Check(okVal, rule, "restricted join: the authorising user is a joined member of the allowed room", c.P.Pos(fw.InstrPos(r)), s, "returned id is "+s)
 	}
-	c.Min(rule+" authoriser returns", n, 2)
+	c.Min(rule+" authoriser returns", n, 1)
 }
 
 func checkPerformJoin(c *fw.Ctx) {
